@@ -56,6 +56,17 @@ theorem foldl_lift {α : Type} (f : EncSt F E → α → EncSt F E) (g : PEncSt 
 
 variable (P : Params F E)
 
+theorem recordState_eq (w : World F E) (er : Nat) (esc : Dict E) (f : Factor) :
+    recordState w er esc f = w.setE er (pRecordState (w.ecells er) esc f) := by
+  unfold recordState pRecordState
+  cases esc f with
+  | none => simp [setE_self]
+  | some v =>
+    simp only
+    cases w.ecells er f with
+    | some u => simp [setE_self]
+    | none => rfl
+
 theorem encodeFactor_lift (d : Data) (kept : List Nat) (cache : Dict (List (String × F))) (er : Nat)
     (st : EncSt F E) (fr : Factor × Bool) :
     encodeFactor P d kept cache er st fr = lift st.1 er (pEncodeFactor P d kept cache (proj er st) fr) := by
@@ -68,10 +79,10 @@ theorem encodeFactor_lift (d : Data) (kept : List Nat) (cache : Dict (List (Stri
     cases cache fr.1 with
     | none => simp [setE_self]
     | some fits =>
-      simp only
-      cases ec fr.1 fr.2 with
-      | some enc => simp [setE_self]
-      | none => rfl
+      simp only [recordState_eq]
+      cases ec.1 fr.1 fr.2 with
+      | some enc => rfl
+      | none => simp only [setE_setE, setE_ecells_self]; rfl
 
 theorem encodeTerm_lift (d : Data) (kept : List Nat) (cache : Dict (List (String × F))) (er : Nat)
     (st : EncSt F E) (k : TermKey) :
